@@ -193,6 +193,12 @@ func validateEncryptedPayload(encryptedInnerData []byte) error {
 		return oops.Code("empty_encrypted_data").
 			Errorf("encrypted inner data cannot be empty")
 	}
+	if len(encryptedInnerData) > 65535 {
+		return oops.Code("encrypted_data_too_long").
+			With("size", len(encryptedInnerData)).
+			Errorf("encrypted inner data size %d does not fit the 2-byte length field",
+				len(encryptedInnerData))
+	}
 	if len(encryptedInnerData) < ENCRYPTED_LEASESET_MIN_ENCRYPTED_SIZE {
 		return oops.Code("encrypted_data_too_short").
 			With("size", len(encryptedInnerData)).
